@@ -400,7 +400,7 @@ def main(tier):
     rule_B(ck, units)
     rule_C(ck, units)
     rule_D(ck, units)
-    rule_E(ck, units)
+    rule_E(ck, units, floor=2)
     rule_E_adapter(ck, units)
     ck.assumptions += ['that adapters expose the same entries (rows/cols/nonzeros, spmv agreement) and the algebra of reorder / scaled_problem are not decided']
     return ck.finish()
